@@ -318,6 +318,32 @@ func c10Exec(cs *c10Case, plan *simrt.MapPlan, u *wk.Unit) *wk.Failure {
 			pl := m.Body[0]
 			pl.Cases = append(append([]msgCase{}, pl.Cases...), msgCase{N: 7, Body: []msgPart{{T: "text", S: "seven"}}})
 			m.Body = []msgPart{pl}
+		case "last-char", "meaning-last-char":
+			// two messages that differ in their very last byte only, at every length modulo 12 (the
+			// fingerprint consumes its input in 12-byte blocks)
+			if len(m.Body) > 0 && m.Body[0].T == "plural" {
+				return nil
+			}
+			for pad := 0; pad < 12; pad++ {
+				a, b := m, m
+				if cs.Variant == "last-char" {
+					a.Body = append(append([]msgPart{}, m.Body...), msgPart{T: "text", S: strings.Repeat("p", pad) + "a"})
+					b.Body = append(append([]msgPart{}, m.Body...), msgPart{T: "text", S: strings.Repeat("p", pad) + "b"})
+				} else {
+					a.Meaning = strings.Repeat("m", pad) + "a"
+					b.Meaning = strings.Repeat("m", pad) + "b"
+				}
+				va, _ := observeMsgCase(bundleFor("app.m", "t", "m.soy", []msgSpec{a}), simrt.CanonicalPlan())
+				vb, _ := observeMsgCase(bundleFor("app.m", "t", "m.soy", []msgSpec{b}), simrt.CanonicalPlan())
+				if !va.Accept || !vb.Accept || len(va.Msgs) != 1 || len(vb.Msgs) != 1 {
+					return &wk.Failure{Class: "invalid-case", Detail: va.Err + vb.Err}
+				}
+				if va.Msgs[0].ID == vb.Msgs[0].ID {
+					return mk("id insensitive to "+cs.Variant, fmt.Sprintf("two messages that differ only in the last byte of their %s share the id %d (%q vs %q, meanings %q vs %q)",
+						map[string]string{"last-char": "text", "meaning-last-char": "meaning"}[cs.Variant], va.Msgs[0].ID, va.Msgs[0].PH, vb.Msgs[0].PH, a.Meaning, b.Meaning))
+				}
+			}
+			return nil
 		default:
 			return &wk.Failure{Class: "invalid-case", Detail: "variant"}
 		}
@@ -404,7 +430,7 @@ func C10(c *wk.Ctx) {
 	}
 	units, perUnit := 500, 12
 	if c.Tier == "thorough" {
-		units = 20000
+		units = 120000
 	}
 	native := c.Extra == "native"
 	if c.Mode == "plan" {
@@ -524,7 +550,7 @@ func C10(c *wk.Ctx) {
 				do(&c10Case{Msg: m, Others: others, Check: "context", Variant: v}, nil)
 			}
 			// (e) sensitivity
-			for _, v := range []string{"text", "meaning", "placeholder", "plural-structure"} {
+			for _, v := range []string{"text", "meaning", "placeholder", "plural-structure", "last-char", "meaning-last-char"} {
 				do(&c10Case{Msg: m, Check: "sensitivity", Variant: v}, nil)
 			}
 			if mi == 0 {
